@@ -20,9 +20,12 @@ import time
 VERIF = os.path.dirname(os.path.dirname(os.path.abspath(__file__)))
 REPO = os.environ.get("VERIF_REPO", "/repo")
 SPEC = os.path.join(VERIF, "spec")
-HARNESS = os.path.join(VERIF, "harness")
-WORK = os.path.join(VERIF, "work")
-EVID = os.path.join(VERIF, "evidence")
+# The three overrides below exist for mutation testing only (tools/mutant_run.sh): a scratch copy of
+# the harness whose path dependency points at a scratch worktree of roto, with its own work/evidence
+# directories, so that /repo and /verif/evidence are never touched by a mutant run.
+HARNESS = os.environ.get("VERIF_HARNESS", os.path.join(VERIF, "harness"))
+WORK = os.environ.get("VERIF_WORK", os.path.join(VERIF, "work"))
+EVID = os.environ.get("VERIF_EVID", os.path.join(VERIF, "evidence"))
 TLA_JAR = "/opt/veriftools/tla/tla2tools.jar"
 TLA_CP = TLA_JAR + ":/opt/veriftools/tla/CommunityModules-deps.jar"
 
